@@ -243,7 +243,7 @@ static void cs_probe_l4(void) {
 		{ int ra_, rb_, rc_; fb_poly_get_rdc(&ra_, &rb_, &rc_); tr_printf("P4 rdc=%d,%d,%d", ra_, rb_, rc_); }
 		fb_zero(a);
 		for (int i = 0; i < RLC_FB_BITS; i += 3) fb_set_bit(a, i, 1);
-		fb_set_bit(a, RLC_FB_BITS - 1, 1);
+		for (int i = RLC_FB_BITS - 30; i < RLC_FB_BITS; i++) fb_set_bit(a, i, 1);		/* every high position (trace terms sit there) */
 		fb_mul(b, a, a); fb_add_dig(b, b, 5);
 		fb_inv(c, b);
 		fb_write_bin(buf, RLC_FB_BYTES, c); tr_str(" inv="); tr_hex(buf, RLC_FB_BYTES);
